@@ -74,13 +74,38 @@ BODIES = [
     "10 format (1p, e12.4, 0p)", "10 format (a, :, i3)", "10 format (t10, tl2, tr3, a)", "10 format (5hhello)",
     "10 format (bn, bz, ss, sp, s, i3)", "10 format (*(i3))",
 ]
+# unusual program structures (whole sources)
+UNITS = [
+    "end\n", "program p\nend\n", "program p\nend program\n", "program p\nend program p\n", "x = 1\nend\n", "integer i\nend program\n",
+    "module m\nend\n", "module m\nend module\n", "module m\nend module m\n", "module m\ncontains\nend module m\n",
+    "module m\ninteger i\ncontains\nsubroutine s\nend subroutine s\nend module m\n",
+    "module m\ncontains\nsubroutine s\ncontains\nsubroutine t\nend subroutine t\nend subroutine s\nfunction f()\nf = 1\nend function f\nend module m\n",
+    "subroutine s\nend\n", "subroutine s()\nend subroutine\n", "subroutine s\ncontains\nsubroutine t\nend subroutine t\nend subroutine s\n",
+    "function f()\nf = 1\nend\n", "function f() result(r)\nr = 1\ncontains\nfunction g()\ng = 2\nend function g\nend function f\n",
+    "recursive subroutine s(a)\nentry e(a)\nend subroutine s\n", "pure elemental integer function f(x)\ninteger, intent(in) :: x\nf = x\nend function f\n",
+    "block data\nend block data\n", "block data b\ncommon /c/ a\ndata a /1/\nend block data b\n", "block data b\nend\n",
+    "program p\ncontains\nsubroutine s\nend subroutine s\nend program p\n", "program p\nuse m\nimplicit none\ninteger i\ni = 1\ncontains\nfunction f()\nf = 1\nend function f\nend program p\n",
+    "module m\nend module m\nprogram p\nuse m\nend program p\n", "subroutine a\nend subroutine a\nsubroutine b\nend subroutine b\nprogram p\nend program p\n",
+    "program p\nend program p\nsubroutine a\nend subroutine a\n", "module m\ninterface\nsubroutine s()\nend subroutine s\nend interface\nend module m\n",
+    "module m\ninterface g\nmodule procedure s\nend interface g\ncontains\nsubroutine s()\nend subroutine s\nend module m\n",
+    "module m\ntype t\ninteger i\ncontains\nprocedure :: p\nend type t\ncontains\nsubroutine p(x)\nclass(t) :: x\nend subroutine p\nend module m\n",
+    "module m\nprivate\npublic :: s\ncontains\nsubroutine s\nend subroutine s\nend module m\n",
+    "module m\nuse, intrinsic :: iso_c_binding\nimplicit none\nsave\ninteger(c_int) :: i\nend module m\n",
+    "module m\nend module m\nsubmodule (m) sm\nend submodule sm\n", "module m\nend module m\nsubmodule (m) sm\ncontains\nmodule procedure mp\nend procedure mp\nend submodule sm\n",
+    "! only a comment\n", "! c\nprogram p\n! d\nend program p\n! e\n", "#define X\nprogram p\nend program p\n",
+    "program p\n10 continue\n20 end program p\n", "subroutine s\nreturn\nend\nsubroutine t\nreturn\nend\n",
+    "program p\nif (a) then\nelse\nend if\ndo i = 1, 2\nend do\nend program p\n", "program p\nblock\nend block\nend program p\n",
+    "program p\ninteger :: i\nblock\ninteger :: j\nblock\ninteger :: k\nend block\nend block\nend program p\n",
+    "function f(a, b, *)\nend function\n", "subroutine s(*)\nreturn 1\nend subroutine\n", "integer function f()\nentry g()\nend function\n",
+    "module procedure_m\nend module procedure_m\n", "program end_p\nend program end_p\n", "subroutine function(x)\nend subroutine function\n",
+]
 WRAPS = ["subroutine w\n%s\nend subroutine w\n", "module mm\n%s\nend module mm\n", "program p\n%s\nend program p\n",
          "function w()\n%s\nend function w\n", "%s\nend\n"]
 
 
 def sources(rng=None, n=None):
     """every body in every wrap (n None) or n sampled ones"""
-    allp = [w % b for b in BODIES for w in WRAPS]
+    allp = [w % b for b in BODIES for w in WRAPS] + UNITS
     if n is None or rng is None:
         return allp
     return [rng.choice(allp) for _ in range(n)]
